@@ -38,9 +38,12 @@ Theorem fallback_iff_405_501_same_params : forall path enc b rest,
   let r := do_get_fallback path enc (start_net (b :: rest) false) in
   rev (n_seen (snd r)) =
     post_form path enc ::
-    match b with SResp c _ => if is_fallback_code c then [get_query path enc] else [] | _ => [] end /\
+    match received_code b with Some c => if is_fallback_code c then [get_query path enc] else [] | None => [] end /\
   match b with
   | SResp c p => fst r = if is_fallback_code c then api_do (answer_of (hd_error rest)) else api_do (OResp c p)
+  | SCutBody c =>
+      if is_fallback_code c then fst r = api_do (answer_of (hd_error rest))
+      else d_err (fst r) = Some EOther /\ d_warn (fst r) = []
   | _ => d_err (fst r) = Some EOther /\ d_warn (fst r) = []
   end.
 Proof. exact C16_proofs.fallback_iff_405_501_same_params_lemma. Qed.
